@@ -173,6 +173,9 @@ func (h c04Hook) script(dir, ns string) string {
 			if bd.Group != 0 {
 				fmt.Fprintf(&b, "  group: %s\n", c04GroupName(bd.Group))
 			}
+			if len(bd.Snaps) > 0 {
+				fmt.Fprintf(&b, "  includeSnapshotsFrom: [%s]\n", strings.Join(bd.Snaps, ", "))
+			}
 		}
 	}
 	if len(h.KBindings) > 0 {
@@ -185,6 +188,12 @@ func (h c04Hook) script(dir, ns string) string {
 			}
 			if kb.Group != 0 {
 				fmt.Fprintf(&b, "  group: %s\n", c04GroupName(kb.Group))
+			}
+			if len(kb.Snaps) > 0 {
+				fmt.Fprintf(&b, "  includeSnapshotsFrom: [%s]\n", strings.Join(kb.Snaps, ", "))
+			}
+			if kb.Jq {
+				b.WriteString("  jqFilter: \".data\"\n")
 			}
 		}
 	}
@@ -362,7 +371,7 @@ func (w *c04World) configure(q *queue.TaskQueue) {
 	}
 }
 
-func newC04World(c *Case, r *Run, hooks []c04Hook, boInit, boStep time.Duration, realBo bool) (*c04World, error) {
+func newC04World(c *Case, r *Run, hooks []c04Hook, boInit, boStep time.Duration, realBo bool, preObjs ...int) (*c04World, error) {
 	dir := filepath.Join(r.Scratch, fmt.Sprintf("c04-%d", c.Idx))
 	if err := os.MkdirAll(filepath.Join(dir, "hooks"), 0o755); err != nil {
 		return nil, err
@@ -389,6 +398,18 @@ func newC04World(c *Case, r *Run, hooks []c04Hook, boInit, boStep time.Duration,
 	for _, h := range hooks {
 		for _, kb := range h.KBindings {
 			w.fc.CreateNs(w.ns + "-" + kb.Name)
+		}
+	}
+	for _, h := range hooks {
+		for _, kb := range h.KBindings {
+			for i := 0; len(preObjs) > 0 && i < preObjs[0]; i++ {
+				m := manifest.MustFromYAML(fmt.Sprintf("apiVersion: v1\nkind: ConfigMap\nmetadata:\n  name: pre-%d\n  namespace: %s-%s\n  labels:\n    verif: %s\ndata:\n  p: \"%d\"\n",
+					i, w.ns, kb.Name, kb.Name, i))
+				if err := w.fc.Create(w.ns+"-"+kb.Name, m); err != nil {
+					cancel()
+					return nil, err
+				}
+			}
 		}
 	}
 	w.fc.CreateNs(w.ns + "-out") // where generated patch files create their objects
@@ -1018,6 +1039,7 @@ type c04Plan struct {
 	maxSteps   int
 	onExec     func(w *c04World, qn, id int, pre, now []c04Snap, run *c04Running) // see c04World.onExec
 	cancels    func(qn int, step int) int                                         // CancelTaskDelay() calls on the queue while a run is blocked (handler running)
+	preObjs    int                                                                // ConfigMaps that exist per kubernetes binding before the operator starts (Synchronization runs and snapshots then carry objects)
 }
 
 func (w *c04World) fire(p c04Plan, e c04Ev) bool {
@@ -1029,7 +1051,7 @@ func (w *c04World) fire(p c04Plan, e c04Ev) bool {
 }
 
 func c04Execute(c *Case, r *Run, p c04Plan) {
-	w, err := newC04World(c, r, p.hooks, p.boInit, p.boStep, p.realBo)
+	w, err := newC04World(c, r, p.hooks, p.boInit, p.boStep, p.realBo, p.preObjs)
 	if err != nil {
 		c.Op("assemble", "error "+firstLine(err.Error()))
 		return
@@ -1211,6 +1233,45 @@ func c04GenHooks(rng *Rng, nh int, kube bool) []c04Hook {
 				}
 			}
 		}
+		// what the hook is shown besides binding / type / group: snapshots of other bindings
+		// (includeSnapshotsFrom of ungrouped schedule / kubernetes bindings; the names must be unambiguous
+		// among the kubernetes bindings — grouped bindings get their group's list from the operator) and a
+		// filterResult next to every object (jqFilter)
+		if !h.V0 && len(h.KBindings) > 0 {
+			cnt := map[string]int{}
+			for _, kb := range h.KBindings {
+				cnt[kb.bname()]++
+			}
+			var uniq []string
+			for _, kb := range h.KBindings {
+				if cnt[kb.bname()] == 1 {
+					uniq = append(uniq, kb.bname())
+				}
+			}
+			pick := func() []string {
+				var res []string
+				for _, u := range uniq {
+					if rng.Chance(60) {
+						res = append(res, u)
+					}
+				}
+				if len(res) == 0 {
+					res = append(res, PickOne(rng, uniq))
+				}
+				return res
+			}
+			for j := range h.Bindings {
+				if h.Bindings[j].Group == 0 && len(uniq) > 0 && rng.Chance(50) {
+					h.Bindings[j].Snaps = pick()
+				}
+			}
+			for j := range h.KBindings {
+				if h.KBindings[j].Group == 0 && len(uniq) > 0 && rng.Chance(40) {
+					h.KBindings[j].Snaps = pick()
+				}
+				h.KBindings[j].Jq = rng.Chance(50)
+			}
+		}
 		hooks = append(hooks, h)
 	}
 	return hooks
@@ -1319,6 +1380,10 @@ func c04Random(c *Case, rng *Rng, r *Run) {
 	}
 	c.Desc = fmt.Sprintf("operator run: %d hooks, %d schedule + %d kubernetes bindings, layouts main=%d q1=%d", len(hooks), nb, nk, len(p.initial[0]), len(p.initial[1]))
 	c.Nontrivial = len(p.initial[0])+len(p.initial[1]) >= 2
+	if nk > 0 && rng.Chance(50) {
+		p.preObjs = rng.Range(1, 2)
+		c.Note("case:objects-exist-before-startup")
+	}
 	if p.realBo {
 		c.Note("backoff:real-CalculateDelay")
 	} else {
@@ -1427,6 +1492,37 @@ func c04SyncWitness(c *Case, r *Run) {
 	c04Execute(c, r, p)
 }
 
+// What the hook is shown on a retry: kubernetes Event tasks (two objects of one binding with a
+// jqFilter and snapshots, one of a grouped binding), a schedule task with snapshots, Synchronization
+// runs over objects that exist before the start; every run fails twice, then succeeds.
+func c04PayloadWitness(c *Case, r *Run) {
+	hooks := []c04Hook{{Name: "hook01", Num: 1, OnStartup: 1, Queue: 0, KBindings: []c04KBinding{
+		{Name: "k1", EOS: true, Jq: true, Snaps: []string{"k1", "k2"}},
+		{Name: "k2", EOS: true, Group: 1},
+		{Name: "k3", EOS: true, Group: 1, Jq: true},
+	}, Bindings: []c04Binding{
+		{Name: "b1", Crontab: "1 0 1 1 *", Snaps: []string{"k1"}},
+		{Name: "b2", Crontab: "2 0 1 1 *", Group: 1},
+	}}, {Name: "hook02", Num: 2, Queue: 0, Bindings: []c04Binding{{Name: "b4", Crontab: "3 0 1 1 *", AF: true}}}}
+	p := c04Plan{hooks: hooks, boInit: 25 * time.Millisecond, boStep: 5 * time.Millisecond, maxSteps: 60, preObjs: 2,
+		initial: map[int][]c04Ev{0: {{1, 0, false}, {0, 0, true}, {0, 0, true}, {0, 0, false}, {0, 1, true}, {0, 1, false}, {1, 0, false}, {0, 2, true}, {0, 0, true}}}}
+	p.outcome = func(id, failed int) string {
+		if failed < 2 {
+			return "exit"
+		}
+		return "ok"
+	}
+	// an object of k2 and one of k1 appear while the combined Event run waits in its first back-off
+	calls := 0
+	p.boArrivals = func(qn, step int) []c04Ev {
+		if calls++; calls == 1 {
+			return []c04Ev{{0, 1, true}, {0, 0, true}}
+		}
+		return nil
+	}
+	c04Execute(c, r, p)
+}
+
 // Output-file layouts: a task that does not allow failure leaves unparsable output files behind
 // (exit code 0) several times, then good ones; a later task of another hook waits behind it.
 func c04OutWitness(c *Case, r *Run) {
@@ -1499,6 +1595,11 @@ func runC04(r *Run) {
 		c.Desc = "corpus: hook process terminated by SIGKILL / SIGTERM / SIGSEGV (ExitCode() = -1), then exit 255, then success; a task of another hook waits behind; CancelTaskDelay() during every other run"
 		c.Nontrivial = true
 		c04KillWitness(c, r)
+	})
+	r.One(3000000, func(c *Case, _ *Rng) {
+		c.Desc = "corpus: what the hook is shown on a retry — Event tasks (jqFilter, snapshots, grouped), schedule with snapshots, Synchronization over existing objects; every run fails twice"
+		c.Nontrivial = true
+		c04PayloadWitness(c, r)
 	})
 	r.Cases(10, r.N(120, 1000), 0, func(c *Case, rng *Rng) { c04Random(c, rng, r) })
 	if r.Thorough() {
